@@ -1,3 +1,266 @@
+(* C20 — proofs about the image writers: every read stays inside the w*h pixels, and the
+   file parses back (independent reader of Spec.v) to (w, h, selected channels of the input). *)
 From Common Require Import Prelude.
+From Coq Require Import DecimalN.
 From C20 Require Import Model Spec.
 Local Open Scope N_scope.
+
+(* ------------------------------------------------------------------ counting *)
+Lemma in_upto n : forall s i, In i (upto n s) <-> s <= i < s + N.of_nat n.
+Proof.
+  induction n as [|n IH]; intros s i; cbn [upto].
+  - cbn. lia.
+  - cbn [In]. rewrite IH. lia.
+Qed.
+
+Lemma in_countN n i : In i (countN n) <-> i < n.
+Proof. unfold countN. rewrite in_upto. lia. Qed.
+
+Lemma length_upto n : forall s, length (upto n s) = n.
+Proof. induction n as [|n IH]; intro s; cbn; [reflexivity | rewrite IH; reflexivity]. Qed.
+
+Lemma length_countN n : length (countN n) = N.to_nat n.
+Proof. apply length_upto. Qed.
+
+Lemma countN_1 : countN 1 = [0]. Proof. reflexivity. Qed.
+Lemma countN_3 : countN 3 = [0; 1; 2]. Proof. reflexivity. Qed.
+Lemma countN_4 : countN 4 = [0; 1; 2; 3]. Proof. reflexivity. Qed.
+
+Lemma map_flat_map {A B C} (f : B -> C) (g : A -> list B) l :
+  map f (flat_map g l) = flat_map (fun x => map f (g x)) l.
+Proof. induction l as [|a l IH]; cbn; [reflexivity | rewrite map_app, IH; reflexivity]. Qed.
+
+Lemma length_flat_map_const {A B} (g : A -> list B) k l :
+  (forall x, length (g x) = k) -> length (flat_map g l) = (length l * k)%nat.
+Proof.
+  intro H. induction l as [|a l IH]; cbn; [reflexivity | rewrite app_length, H, IH; reflexivity].
+Qed.
+
+(* ------------------------------------------------------------------ reads in bounds *)
+(* what the index arithmetic needs of an instantiation: at least one stored component, and
+   either one written component or no more written than stored *)
+Definition fmt_ok (f : fmt) : Prop :=
+  0 < f_pixcomp f /\ (f_ncomp f = 1 \/ f_ncomp f <= f_pixcomp f).
+
+Lemma fmt_of_ok i : fmt_ok (fmt_of i).
+Proof. unfold fmt_ok. destruct i; cbn; lia. Qed.
+
+Lemma comp_sel_lt f c : fmt_ok f -> c < f_ncomp f -> comp_sel f c < f_pixcomp f.
+Proof. unfold fmt_ok, comp_sel. intros [Hp Hn] Hc. destruct (N.eqb_spec (f_ncomp f) 1); lia. Qed.
+
+Lemma src_row_lt f h y : y < h -> src_row f h y < h.
+Proof. unfold src_row. destruct (f_flip f); lia. Qed.
+
+Lemma index_lt r w h p x s : r < h -> x < w -> s < p -> r * w * p + (p * x + s) < w * h * p.
+Proof.
+  intros Hr Hx Hs.
+  assert (H1 : p * x + s < p * (x + 1)) by lia.
+  assert (H2 : p * (x + 1) <= p * w) by (apply N.mul_le_mono_l; lia).
+  assert (H3 : (r + 1) * (w * p) <= h * (w * p)) by (apply N.mul_le_mono_r; lia).
+  lia.
+Qed.
+
+Lemma read_index_lt f w h y x c :
+  fmt_ok f -> y < h -> x < w -> c < f_ncomp f ->
+  read_index comp_sel f w h y x c < w * h * f_pixcomp f.
+Proof.
+  intros Hf Hy Hx Hc. unfold read_index.
+  apply index_lt; [apply src_row_lt; exact Hy | exact Hx | apply comp_sel_lt; assumption].
+Qed.
+
+Lemma in_img_reads sel f w h i :
+  In i (img_reads sel f w h) <->
+  exists y x c, y < h /\ x < w /\ c < f_ncomp f /\ i = read_index sel f w h y x c.
+Proof.
+  unfold img_reads, row_reads. rewrite in_flat_map. split.
+  - intros [y [Hy Hi]]. apply in_flat_map in Hi. destruct Hi as [x [Hx Hi]].
+    apply in_map_iff in Hi. destruct Hi as [c [E Hc]].
+    exists y, x, c. rewrite in_countN in *. repeat split; [assumption .. | symmetry; exact E].
+  - intros [y [x [c [Hy [Hx [Hc E]]]]]]. exists y. split; [apply in_countN; exact Hy|].
+    apply in_flat_map. exists x. split; [apply in_countN; exact Hx|].
+    apply in_map_iff. exists c. split; [symmetry; exact E | apply in_countN; exact Hc].
+Qed.
+
+Lemma reads_in_bounds_gen f w h i :
+  fmt_ok f -> In i (img_reads comp_sel f w h) -> i < w * h * f_pixcomp f.
+Proof.
+  intros Hf Hi. apply in_img_reads in Hi. destruct Hi as [y [x [c [Hy [Hx [Hc E]]]]]].
+  subst i. apply read_index_lt; assumption.
+Qed.
+
+Lemma reads_in_bounds i w h idx :
+  In idx (img_reads comp_sel (fmt_of i) w h) -> idx < w * h * f_pixcomp (fmt_of i).
+Proof. apply reads_in_bounds_gen. apply fmt_of_ok. Qed.
+
+(* the number of reads = the number of components written *)
+Lemma length_img_reads sel f w h :
+  length (img_reads sel f w h) = N.to_nat (w * h * f_ncomp f).
+Proof.
+  unfold img_reads.
+  rewrite (length_flat_map_const _ (N.to_nat w * N.to_nat (f_ncomp f))%nat).
+  - rewrite length_countN. rewrite !N2Nat.inj_mul. lia.
+  - intro y. unfold row_reads. rewrite (length_flat_map_const _ (N.to_nat (f_ncomp f))).
+    + rewrite length_countN. reflexivity.
+    + intro x. rewrite map_length. apply length_countN.
+Qed.
+
+(* performing the reads on a buffer that holds them all never leaves the buffer *)
+Lemma read_all_ok inp idx :
+  Forall (fun i => (N.to_nat i < length inp)%nat) idx ->
+  read_all inp idx = inl (map (fun i => nth (N.to_nat i) inp 0) idx).
+Proof.
+  induction 1 as [|i idx Hi _ IH]; cbn [read_all map]; [reflexivity|].
+  rewrite (nth_error_nth' inp 0 Hi), IH. reflexivity.
+Qed.
+
+Lemma writeImage_bytes i w h inp :
+  length inp = N.to_nat (w * h * f_pixcomp (fmt_of i)) ->
+  writeImage (fmt_of i) w h inp =
+  WBytes (header (fmt_of i) w h
+          ++ flat_map (le_bytes (f_csize (fmt_of i)))
+                      (map (fun k => nth (N.to_nat k) inp 0) (img_reads comp_sel (fmt_of i) w h))
+          ++ [10]).
+Proof.
+  intro L. unfold writeImage, writeImage_gen. rewrite read_all_ok; [reflexivity|].
+  apply Forall_forall. intros k Hk. apply reads_in_bounds in Hk. rewrite L. lia.
+Qed.
+
+(* the unrepaired component selection leaves the buffer: writePFM<float> on a 2x2 image *)
+Lemma pfm_float_old_oob :
+  exists w h inp idx,
+    length inp = N.to_nat (w * h * f_pixcomp (fmt_of PFM1)) /\
+    In idx (img_reads comp_sel_old (fmt_of PFM1) w h) /\
+    w * h * f_pixcomp (fmt_of PFM1) <= idx /\
+    writeImage_old (fmt_of PFM1) w h inp = WOob idx.
+Proof.
+  exists 2, 2, [1; 2; 3; 4], 4. vm_compute. repeat split; try reflexivity.
+  - right. left. reflexivity.
+  - discriminate.
+Qed.
+
+(* ------------------------------------------------------------------ the reads are the spec's pixels *)
+Lemma reads_expected i w h inp :
+  map (fun k => nth (N.to_nat k) inp 0) (img_reads comp_sel (fmt_of i) w h) = expected i w h inp.
+Proof.
+  unfold img_reads, expected, row_reads. rewrite map_flat_map. apply flat_map_ext. intro y.
+  rewrite map_flat_map. apply flat_map_ext. intro x. rewrite map_map.
+  unfold pix, read_index, comp_sel, src_row.
+  destruct i; cbn [fmt_of f_ncomp f_pixcomp f_flip bottom_up selected N.eqb Pos.eqb];
+    rewrite ?countN_1, ?countN_3, ?countN_4; cbn [map];
+    repeat (f_equal; try (f_equal; f_equal; lia)).
+Qed.
+
+(* ------------------------------------------------------------------ header round trip *)
+Lemma strip_prefix_app p s : strip_prefix p (p ++ s) = Some s.
+Proof. induction p as [|a p IH]; cbn; [reflexivity | rewrite N.eqb_refl; exact IH]. Qed.
+
+Lemma uint_chars_digits u : forallb is_digit (uint_chars u) = true.
+Proof. induction u; cbn; try reflexivity; exact IHu. Qed.
+
+Lemma chars_uint_chars u : chars_uint (uint_chars u) = u.
+Proof. induction u; cbn; try reflexivity; rewrite IHu; reflexivity. Qed.
+
+Lemma span_digits_app ds c r :
+  forallb is_digit ds = true -> is_digit c = false -> span_digits (ds ++ c :: r) = (ds, c :: r).
+Proof.
+  intros Hd Hc. induction ds as [|d ds IH]; cbn [app span_digits].
+  - rewrite Hc. reflexivity.
+  - cbn [forallb] in Hd. apply andb_true_iff in Hd. destruct Hd as [H1 H2].
+    rewrite H1, (IH H2). reflexivity.
+Qed.
+
+Lemma dec_nonempty n : dec n <> [].
+Proof.
+  unfold dec. intro H. destruct (N.to_uint n) eqn:E; cbn in H; try discriminate.
+  pose proof (Unsigned.of_to n) as R. rewrite E in R. cbn in R. subst n. cbn in E. discriminate.
+Qed.
+
+Lemma parse_dec_dec n c r : is_digit c = false -> parse_dec (dec n ++ c :: r) = Some (n, c :: r).
+Proof.
+  intro Hc. unfold parse_dec. rewrite span_digits_app; [|apply uint_chars_digits | exact Hc].
+  destruct (dec n) as [|d ds] eqn:E; [exfalso; exact (dec_nonempty n E)|].
+  rewrite <- E. unfold dec. rewrite chars_uint_chars, Unsigned.of_to. reflexivity.
+Qed.
+
+Lemma parse_header_header f w h rest :
+  parse_header (f_magic f) (f_scale f) (header f w h ++ rest) = Some (w, h, rest).
+Proof.
+  unfold parse_header, header. repeat rewrite <- app_assoc.
+  rewrite (app_assoc (f_magic f) [10]). rewrite strip_prefix_app. cbn [app].
+  rewrite parse_dec_dec by reflexivity. cbn [strip_prefix N.eqb Pos.eqb].
+  rewrite parse_dec_dec by reflexivity. cbn [app strip_prefix N.eqb Pos.eqb].
+  change (10 :: rest) with ([10] ++ rest). rewrite app_assoc, strip_prefix_app. reflexivity.
+Qed.
+
+(* ------------------------------------------------------------------ payload round trip *)
+Lemma length_le_bytes n : forall v, length (le_bytes n v) = n.
+Proof. induction n as [|n IH]; intro v; cbn; [reflexivity | rewrite IH; reflexivity]. Qed.
+
+Lemma le_val_le_bytes n : forall v, v < 256 ^ N.of_nat n -> le_val (le_bytes n v) = v.
+Proof.
+  induction n as [|n IH]; intros v Hv.
+  - cbn in *. lia.
+  - cbn [le_bytes le_val]. rewrite Nat2N.inj_succ, N.pow_succ_r' in Hv.
+    rewrite IH by (apply N.div_lt_upper_bound; lia).
+    pose proof (N.div_mod v 256). lia.
+Qed.
+
+Lemma firstn_len_app {A} (a b : list A) n : length a = n -> firstn n (a ++ b) = a.
+Proof. intros <-. induction a as [|x a IH]; cbn; [destruct b; reflexivity | rewrite IH; reflexivity]. Qed.
+
+Lemma skipn_len_app {A} (a b : list A) n : length a = n -> skipn n (a ++ b) = b.
+Proof. intros <-. induction a as [|x a IH]; cbn; [reflexivity | exact IH]. Qed.
+
+Lemma take_comps_ok cs vs rest :
+  Forall (fun v => v < 256 ^ N.of_nat cs) vs ->
+  take_comps cs (length vs) (flat_map (le_bytes cs) vs ++ rest) = Some (vs, rest).
+Proof.
+  induction 1 as [|v vs Hv _ IH]; cbn [length flat_map take_comps app]; [reflexivity|].
+  rewrite <- app_assoc.
+  assert (L : length (le_bytes cs v) = cs) by apply length_le_bytes.
+  destruct (Nat.ltb_spec (length (le_bytes cs v ++ flat_map (le_bytes cs) vs ++ rest)) cs) as [Hlt|_].
+  { rewrite app_length in Hlt. lia. }
+  rewrite (firstn_len_app _ _ _ L), (skipn_len_app _ _ _ L).
+  rewrite IH, le_val_le_bytes by exact Hv. reflexivity.
+Qed.
+
+Lemma pow256_pos k : 0 < 256 ^ k.
+Proof. apply N.neq_0_lt_0. apply N.pow_nonzero. discriminate. Qed.
+
+(* ------------------------------------------------------------------ image_decode *)
+Lemma image_decode i w h inp :
+  length inp = N.to_nat (w * h * f_pixcomp (fmt_of i)) -> comps_fit i inp ->
+  exists bytes,
+    writeImage (fmt_of i) w h inp = WBytes bytes /\
+    read_image (fmt_of i) bytes = Some (w, h, expected i w h inp).
+Proof.
+  intros L Fit. eexists. split; [apply writeImage_bytes; exact L|].
+  unfold read_image. rewrite parse_header_header. rewrite reads_expected.
+  assert (Len : length (expected i w h inp) = N.to_nat (w * h * f_ncomp (fmt_of i))).
+  { rewrite <- reads_expected, map_length. apply length_img_reads. }
+  rewrite <- Len. rewrite take_comps_ok; [reflexivity|].
+  rewrite <- reads_expected. apply Forall_forall. intros v Hv.
+  apply in_map_iff in Hv. destruct Hv as [k [E _]]. subst v.
+  destruct (nth_in_or_default (N.to_nat k) inp 0) as [Hin|E0].
+  - unfold comps_fit in Fit. rewrite Forall_forall in Fit. apply Fit. exact Hin.
+  - rewrite E0. apply pow256_pos.
+Qed.
+
+(* the same statement unfolded for the two families: rows bottom-up / as given *)
+Lemma expected_rows i w h inp :
+  expected i w h inp =
+  flat_map (fun y => flat_map (fun x => map (fun c => pix i w inp (if bottom_up i then h - 1 - y else y) x c)
+                                            (selected i)) (countN w)) (countN h).
+Proof. reflexivity. Qed.
+
+(* the decoded content has one entry per pixel and selected channel *)
+Lemma length_expected i w h inp :
+  length (expected i w h inp) = N.to_nat (w * h * N.of_nat (length (selected i))).
+Proof.
+  rewrite <- reads_expected, map_length, length_img_reads. destruct i; reflexivity.
+Qed.
+
+(* the writer never leaves the buffer it was given *)
+Lemma writeImage_no_oob i w h inp idx :
+  length inp = N.to_nat (w * h * f_pixcomp (fmt_of i)) -> writeImage (fmt_of i) w h inp <> WOob idx.
+Proof. intro L. rewrite writeImage_bytes by exact L. discriminate. Qed.
